@@ -48,6 +48,8 @@ def main():
     finally:
         if scratch:
             sh(['git', '-C', REPO, 'worktree', 'remove', '--force', repo])
+            import shutil
+            shutil.rmtree(repo + '-replays', ignore_errors=True)
 
 
 def run_all(args, runs, repo, scratch):
@@ -74,6 +76,9 @@ def run_all(args, runs, repo, scratch):
             env = dict(os.environ)
             if scratch:
                 env['VERIF_REPO'] = repo
+                # a private replay directory: two scratch runners may run checks of the same
+                # property side by side, and replay files are named after the run seed
+                env['VERIF_REPLAY_DIR'] = repo + '-replays'
             r = sh(cmd, cwd=VERIF, env=env)
             wall = time.time() - t0
             viol = re.findall(r'check=(\S+)', r.stdout)
